@@ -581,6 +581,12 @@ func runBulkUnderHeartbeats(messages, packets int) (string, []finding, string) {
 	var fs []finding
 	got := 0
 	deadline := time.After(12*K.HeartbeatInterval + 20*time.Second)
+	poll := time.NewTicker(50 * time.Millisecond)
+	defer poll.Stop()
+	// A connection that closes is a finding only if it closes EARLY: the heartbeat logic itself drops a peer it has not heard
+	// from for 3 s, which an overloaded machine can produce on a throttled link; both nodes heard each other in the handshake
+	// a moment before t0, so a close within the first 2.5 s cannot be that timeout
+	const early = 2500 * time.Millisecond
 	for got < messages && len(fs) == 0 {
 		select {
 		case m := <-D.p.Inbox(lib.Topic_BLOCK):
@@ -589,11 +595,16 @@ func runBulkUnderHeartbeats(messages, packets int) (string, []finding, string) {
 				fs = append(fs, finding{"C18:modified:bulk-under-heartbeats", what})
 			}
 			got++
-		case <-deadline:
+		case <-poll.C:
 			if !S.p.PeerSet.Has(D.pub) || !D.p.PeerSet.Has(S.pub) {
-				fs = append(fs, finding{"C18:valid-traffic-closed-connection:bulk-under-heartbeats", fmt.Sprintf("the connection was closed during a bulk transfer of %d valid messages (%d delivered)", messages, got)})
+				if el := time.Since(t0); el <= early {
+					fs = append(fs, finding{"C18:valid-traffic-closed-connection:bulk-under-heartbeats", fmt.Sprintf("the connection was closed %.1f s into a bulk transfer of %d valid messages (%d delivered)", el.Seconds(), messages, got)})
+					return fmt.Sprintf("bulk-under-heartbeats:closed-early:delivered=%d-of-%d", got, messages), fs, ""
+				}
+				return fmt.Sprintf("bulk-under-heartbeats:closed-late:not-judged:delivered=%d-of-%d", got, messages), nil, "closed after more than 2.5 s: cannot be told from the 3 s heartbeat timeout on an overloaded machine"
 			}
-			return fmt.Sprintf("bulk-under-heartbeats:delivered=%d-of-%d:timeout", got, messages), fs, ""
+		case <-deadline:
+			return fmt.Sprintf("bulk-under-heartbeats:delivered=%d-of-%d:timeout:not-judged", got, messages), nil, ""
 		}
 	}
 	span := time.Since(t0)
